@@ -219,7 +219,9 @@ def run_property(prop_id, tier, seed, jobs=None, only=None, verbose=False):
     again = [i for i, r in zip(order, results)
              if r['status'] == 'inconclusive' and ('imeout' in str(r.get('reason')) or
                                                    'budget' in str(r.get('reason')))]
-    if again:
+    # (only when a few did: many timeouts are not a load artefact, and repeating them all
+    # would double the run)
+    if again and len(again) <= 8:
         with ctx.Pool(min(4, len(again)), maxtasksperchild=4) as pool:
             second = pool.map(_run_shard, again, chunksize=1)
         pos = dict((i, k) for k, i in enumerate(order))
